@@ -1,6 +1,6 @@
 (* Extraction of the executable model + monitor for the correspondence driver.
    Only ExtrOcamlBasic: positive/N/Z/nat stay inductive types. *)
 From Coq Require Import Extraction ExtrOcamlBasic.
-From Verif Require Import c03.Spec.
+From Verif Require Import c03.Spec c03.Conc c03.SpecAll.
 Extraction Language OCaml.
 Extraction "extract/c03_model.ml" conform_case monitor_case.
